@@ -50,10 +50,11 @@ seeded = ["## 9. Seeded changes and which checks catch them", "",
           "fails with the change and passes without) before it was kept under `/verif/seeded/<id>/`",
           "(`patch.diff`, demonstration, `meta.json`). `caught by` = the registered check(s) that report a",
           "VIOLATION with the patch applied (tier, and what had to be strengthened first). Round 1 = m1/m2,",
-          "round 2 (agents told what round 1 had done, asked for rarer triggers) = m3/m4. `tools_seed_verify.sh`",
+          "round 2 (agents told what round 1 had done, asked for rarer triggers) = m3/m4, round 3 (told about both,",
+          "pointed at seldom-used features) = m5/m6. `tools_seed_verify.sh`",
           "re-confirms all of them against the current trees and writes `seeded/VERIFY.md`; patches made against an",
           "older /repo HEAD were re-based where a later `fix:` commit touched the same lines (C01-m1, C06-m4,",
-          "C08-m3, C13-m4, C17-m3); C17-m2 is no longer a violation since fix 3d4bafe and is kept for the record. The checks run against a scratch worktree with the patch applied (`VERIF_REPO`), which is the",
+          "C08-m3, C13-m4, C17-m3); C17-m2 (fix 3d4bafe) and C06-m5 = C20-m6 (fix 73d2263) are no longer violations and are kept for the record. The checks run against a scratch worktree with the patch applied (`VERIF_REPO`), which is the",
           "same build as `git -C /repo apply` + check + `git -C /repo checkout -- .` (`IN_REPO=1 tools_seed.sh`",
           "does it literally) but leaves /repo alone while other checks are running.", "",
           "| id | property | change | needs to manifest | caught by |", "|---|---|---|---|---|"] + rows
